@@ -470,9 +470,18 @@ def real_cast_rule(chk, src):
         for x in ast.walk(fi.node):
             for ch in ast.iter_child_nodes(x):
                 parents[ch] = x
-        for r in ast.walk(fi.node):
-            if not isinstance(r, ast.Return) or r.value is None:
-                continue
+        # a return that hands the value to a one-argument helper of the same module is judged inside the helper (its own guards, its parameter as the subject)
+        rets = [(r, fi.node, None) for r in ast.walk(fi.node) if isinstance(r, ast.Return) and r.value is not None]
+        for r, _, _ in list(rets):
+            v = r.value
+            if isinstance(v, ast.Call) and isinstance(v.func, ast.Name) and len(v.args) == 1 and not v.keywords:
+                hf = src.find_func(fi.rel, v.func.id)
+                if hf is not None and len(hf.params()) == 1:
+                    for x in ast.walk(hf.node):
+                        for ch in ast.iter_child_nodes(x):
+                            parents[ch] = x
+                    rets += [(hr, hf.node, hf) for hr in ast.walk(hf.node) if isinstance(hr, ast.Return) and hr.value is not None]
+        for r, owner, helper in rets:
             reals = [a for a in ast.walk(r.value) if (isinstance(a, ast.Attribute) and a.attr == "real") or (isinstance(a, ast.Call) and unparse(a.func) in ("np.real", "xp.real"))]
             if not reals:
                 continue
